@@ -56,6 +56,7 @@ func init() {
 		rules.DiffMergeKey(p, r, "C08-key")
 		// a default carried from one element of a list to the next makes the result depend on the order of the list
 		rules.LoopCarriedDefaults(p, r, "C08-loop")
+		rules.PortSetMutatorsTotal(p, r, "C08-union-total")
 		var sources []ordertaint.Source
 		if fd := p.Func(core.PkgConnlist, "ConnlistAnalyzer", "ConnectionsListToString"); fd != nil {
 			sources = append(sources, ordertaint.Source{Param: fd.Obj.Type().(*types.Signature).Params().At(0), Ord: ordertaint.Unord})
